@@ -12,7 +12,16 @@ Sections, their children and ancestors, at every depth - are unnamed (name == id
 the id of another object as name, have siblings whose names differ only in letter case / surrounding blanks /
 Unicode normalisation, have a Property named like a sibling Section, have non-ASCII names or names with characters
 that mean something in paths, URLs or file formats; and over documents that were not built by hand but cloned or
-loaded from a file (ORIGINS).
+loaded from a file (ORIGINS). Own children of the linking Section there also: names that differ from names of the
+target's children only in case / blanks / normalisation (different names: restoration law applies), a child named like
+a child of the other kind of the target (nothing demanded or forbidden for that child), a Property of the target's
+name with values of another data type (first sentence only).
+
+Clauses: copies-present (one copy per unused name, equal content, same name, not the target's own object),
+only-copies-added (exact multiset of (kind, name) of the children; every new child is one copy of a child of the target),
+target-unchanged, rest-unchanged, finalize-idempotent, finalize-returns / clean-returns, clean-restores (exact, incl. ids
+and identities), reference-kept, refinalize-same, file-has-reference-only (after the first and after the last clean,
+read without the library), load-saved / loaded-equals-cleaned and the same cycle on the loaded document.
 
 The oracle keeps snapshots (rcc.harness) and resolves stored paths with its own resolver on private fields.
 Nothing is written outside /verif/.work/c12 (the library's download cache is redirected there as well).
@@ -1126,9 +1135,13 @@ def naming_link_scenarios(tier, seed, part):
                     if full:
                         picks = [(own, ORIGINS[(combo + i + oi + j * 2) % len(ORIGINS)]) for oi, own in enumerate(owns) for j in range(2)]
                     elif tier == 'quick':
+                        if part == 'restore' and how == 'absolute' and (combo // 2 + i) % 2:
+                            continue
                         picks = [(owns[(combo + i + j * 3) % len(owns)], QUICK_ORIGINS[(combo * 7 + i + j * 5) % len(QUICK_ORIGINS)])
                                  for j in range(2 if part == 'finalize' else 1)]
                     else:
+                        if part == 'restore' and how == 'absolute' and (combo // 2 + i) % 2:
+                            continue
                         picks = [(owns[(combo + i + j * 3) % len(owns)], ORIGINS[(combo * 7 + i + j * 2) % len(ORIGINS)])
                                  for j in range(2 if part == 'finalize' else 1)]
                     for own, origin in picks:
@@ -1150,7 +1163,7 @@ def naming_link_scenarios(tier, seed, part):
         # deeper documents: a sample of the next size
         big = [(shape, l, t) for shape in h.tree_shapes(max_secs + 1) if count_nodes(shape) == max_secs + 1
                for (l, t) in admissible_single(shape)]
-        for n, (shape, l, t) in enumerate(rnd.sample(big, 28)):
+        for n, (shape, l, t) in enumerate(rnd.sample(big, 21)):
             naming, own, how = NAMINGS[n % len(NAMINGS)], owns[(n // 7 + n) % len(owns)], ('absolute', 'relative')[(n // 7) % 2]
             origin = QUICK_ORIGINS[n % len(QUICK_ORIGINS)]
             yield ({'shape': repr(shape), 'links': [[l, t, how, own]], 'naming': naming, 'origin': origin},
